@@ -58,6 +58,10 @@ def handle (req : Sexp) : Sexp :=
     match recs? rs, rec? r, natOpt? ati, active.asInt? with
     | some rs, some r, some ati, some active => recsS (insertRecord rs r ati active)
     | _, _, _, _ => bad
+  | .list [.atom "getrecords", rs, name, pno] =>
+    match recs? rs, decStr? name, pno.asInt? with
+    | some rs, some name, some pno => recsS (getRecords rs (String.ofList name) pno)
+    | _, _, _ => bad
   | .list [.atom "remove", rs, rm] =>
     match recs? rs, recs? rm with
     | some rs, some rm => recsS (removeRecords rs rm)
